@@ -210,16 +210,16 @@ func (ex *Exec) store(lv *lval, v Val) {
 	case lvValField:
 		p := ex.load(lv.parent)
 		st := structOf(lv.st)
-		h := ex.fresh("upd."+structName(lv.st), SInt)
+		var fs []*T
 		for i := 0; i < st.NumFields(); i++ {
 			f := st.Field(i)
 			if f == lv.f {
-				ex.assume(Eq(ex.vfield(h, lv.st, f), v.T))
+				fs = append(fs, v.T)
 			} else {
-				ex.assume(Eq(ex.vfield(h, lv.st, f), ex.vfield(p.T, lv.st, f)))
+				fs = append(fs, ex.vfield(p.T, lv.st, f))
 			}
 		}
-		ex.store(lv.parent, Val{h, lv.st})
+		ex.store(lv.parent, Val{ex.mkStruct(lv.st, fs), lv.st})
 	case lvIndex:
 		s := ex.load(lv.parent)
 		ns := ex.writeRange(s.T, lv.typ, lv.idx, Add(lv.idx, I(1)), lv.str)
@@ -851,6 +851,7 @@ func (ex *Exec) discoverModified(run func()) map[string]bool {
 		}
 		fr.defers = fr.defers[:ndef]
 		ex.facts = ex.facts[:nf]
+		ex.factScopes = ex.factScopes[:nf]
 		ex.obls = ex.obls[:no]
 		ex.loops = savedLoops
 		ex.st = savedSt
@@ -925,7 +926,13 @@ func (ex *Exec) execLoop(lp *loopParts) {
 	runIter := func(lf *loopFrame) {
 		c := lp.cond()
 		base := ex.st
+		ex.nScope++
+		scopeID := ex.nScope
 		bodySt := ex.branch(base, c, func() {
+			if ex.st.scopes == nil {
+				ex.st.scopes = map[int]bool{}
+			}
+			ex.st.scopes[scopeID] = true
 			if lp.bodyPre != nil {
 				lp.bodyPre()
 			}
